@@ -449,6 +449,8 @@ class IdentityOperator(AbstractLinearOperator):
     def __matmul__(self, other: Any) -> AbstractLinearOperator:
         if not isinstance(other, AbstractLinearOperator):
             return NotImplemented
+        if self.in_structure() != other.out_structure():
+            raise ValueError('Incompatible linear operator structures')
         return other
 
     def mv(self, x: PyTree[Inexact[Array, '...']]) -> PyTree[Inexact[Array, '...']]:
